@@ -200,7 +200,7 @@ def same_shape_rewrites(ctx, rng, modes):
                 det = {"steps": [[mode, q] for q in script], "mode": mode}
                 if not all(ev.is_ok(r) for r in rs):
                     bad = next(i for i, r in enumerate(rs) if not ev.is_ok(r))
-                    if ev.is_panic(rs[bad]) or bad in (0, 4):
+                    if ev.is_panic(rs[bad]) or (bad in (0, 4) and "err" in rs[bad]):
                         ctx.violation(f"same-shape|{mode}|{removal}|step-{script[bad]['op']}-{ev.variant(rs[bad])}",
                                       f"same-shape rewrite after {removal} in {mode}: {script[bad]['op']} gave {ev.brief(rs[bad])}", det)
                     else:
